@@ -377,6 +377,26 @@ func init() {
 		}
 		docxPath := tmpFile(r, ".docx", writeZip(mkDOCXBlocks(hb, "", "")))
 		odtPath := tmpFile(r, ".odt", writeZip(mkODTBlocks(hb)))
+		// the same headings in a package whose heading styles are chained (one more block flips the writer's choice)
+		if dr2, e := docx.Open(tmpFile(r, ".docx", writeZip(mkDOCXBlocks(append(append([]wpBlock{}, hb...), wpBlock{kind: 0, inl: []wpInline{{0, "last paragraph"}}}), "", "")))); e == nil {
+			md2, e2 := dr2.MarkdownWithRAGOptions(docx.ExtractOptions{}, rag.DefaultMarkdownOptions())
+			md1 := ""
+			if dr1, e := docx.Open(docxPath); e == nil {
+				md1, _ = dr1.MarkdownWithRAGOptions(docx.ExtractOptions{}, rag.DefaultMarkdownOptions())
+				dr1.Close()
+			}
+			why := ""
+			for lvl := 1; lvl <= 9 && e2 == nil; lvl++ {
+				title := fmt.Sprintf("Title%d", lvl)
+				if a, b := hcount(md2, title), hcount(md1, title); a != b {
+					why = fmt.Sprintf("heading of level %d (style kind %d): %d '#' when the heading styles are chained, %d when each is based on Normal", lvl, lvl%3, a, b)
+				}
+			}
+			r.Check(e2 == nil && why == "", "heading-level:docx-chained-styles", why, nil)
+			dr2.Close()
+		} else {
+			r.Check(false, "heading-docs-open", "generated heading document with chained styles does not open: "+e.Error(), nil)
+		}
 		dr, derr := docx.Open(docxPath)
 		or, oerr := odt.Open(odtPath)
 		r.Check(derr == nil && oerr == nil, "heading-docs-open", fmt.Sprintf("generated heading documents do not open: %v %v", derr, oerr), nil)
@@ -459,6 +479,11 @@ func init() {
 					case 2:
 						if lvl > 0 && rng.Bool() {
 							lvl = 0
+						}
+					case 3:
+						// two levels down at once: the level between has no item of its own
+						if lvl == 0 && rng.Chance(1, 3) {
+							lvl = 2
 						}
 					}
 				}
